@@ -595,7 +595,9 @@ func (h *history) fail(id int, err error) {
 		if len(why) > 80 {
 			why = why[:80]
 		}
-		if _, isReply := err.(respErr); isReply {
+		if _, isReply := err.(respErr); isReply && !strings.HasPrefix(why, "ERR :") {
+			// ("ERR :..." is the merged error of a DEL / EXISTS sub-command: other sub-commands may
+			// have taken effect, so it is never a refusal)
 			for _, d := range definiteRefusals {
 				if strings.Contains(why, d) {
 					ev = "refused"
@@ -785,13 +787,6 @@ func (w *workload) run(maxOps int) {
 				v, err := conn.do(w.opTO, op.args()...)
 				if err == nil {
 					if n, ok := replyInt(v); ok {
-						if op.T == "del" && n == 0 {
-							// avoid rule of known finding c04-del-merge-swallows-errors: the DEL / EXISTS merge
-							// layer turns the error of a sub-command into the count 0, so "0" does not say
-							// whether the delete happened, will happen, or was refused
-							w.h.fail(id, errors.New("del answered 0"))
-							continue
-						}
 						w.h.ok(id, n)
 						if rng.Intn(12) == 0 { // move to another node now and then
 							conn.close()
